@@ -193,9 +193,11 @@ CHECKS['C19'] = dict(
     text='For 5 alternatives in 2 strata, 4 sample-size vectors, every chosen alternative and EVERY possible draw (pandas '
          'sample replaced by a solver-chosen subset) the generated row lists the chosen alternative first, no duplicates, the '
          'requested number per stratum, ln(k/n) corrections and n/k weights; attributes and combined variables are those '
-         'of the listed alternative (z3, symbolic attributes); with complete sampling the logit / nested-logit log '
-         'likelihood on the sample equals the full-choice-set model for ALL attributes and parameters (z3 + ELN).',
-    note='Trusted: engine contract, ELN rules. Outside: cross-nested model on samples, larger tables, recycle=True.',
+         'of the listed alternative (z3, symbolic attributes); with complete sampling the logit / nested-logit / '
+         'cross-nested (fixed allocations) log likelihood on the sample equals the full-choice-set model for ALL attributes and '
+         'parameters (z3 + ELN).',
+    note='Trusted: engine contract, ELN rules. Outside: larger tables, recycle=True. An equality that neither the normal form nor z3 '
+         'decides becomes a candidate for the concrete replay.',
     design='DESIGN.md 1/C19')
 CHECKS['C20'] = dict(
     text='For every alias discovered in the current tree (about 120 @deprecated functions/methods, 21 functions with renamed '
